@@ -168,7 +168,7 @@ class FConc:
         from ..concretise import state_names, var_names
         self.vn = var_names(list(dom), rng, "str")
         self.inv = {c: t for t, c in self.vn.items()}
-        self.sn = {v: state_names(dom[v], rng, rng.choice(["str", "int", "range", "tuple", "mixed"]) if state_kind == "any" else state_kind)
+        self.sn = {v: state_names(dom[v], rng, rng.choice(["str", "int", "range", "perm", "tuple", "mixed"]) if state_kind == "any" else state_kind)
                    for v in dom}
         self.dom = dom
 
